@@ -1,18 +1,21 @@
-// C14 (completion, engine H): BFS over histories of request / deliver-response / duplicate / unknown-id / advance-clock /
-// cleanup+initialize / request in the opposite direction, on two REAL jsonrpc::Rpc peers wired back-to-back through in-memory
-// send callbacks, on a real event loop driven single-threaded on a VIRTUAL monotonic clock (1 s tick).
-//   usage: rpc_harness <proto: raw|header|packet> <engine: epoll|select> <timeout_sec, 0 = Rpc's default (30)> <depth> [optional ops: r,b,rb,-]
+// C14 (completion, engine H): BFS over histories of request / deliver-response / duplicate / unknown-id / advance-clock (whole and half
+// seconds) / cleanup ... initialize / destruction / transport disconnected / request in the opposite direction, on two REAL jsonrpc::Rpc
+// peers wired back-to-back through in-memory send callbacks, on a real event loop driven single-threaded on a VIRTUAL monotonic clock.
+//   usage: rpc_harness <proto: raw|header|packet> <engine: epoll|select> <timeout_sec, 0 = Rpc's default (30)> <depth> [optional ops, letters of "rbhdc" or "-"]
 //          rpc_harness lane          deterministic lane (outside the BFS): many pending requests, re-entrant deliveries from callbacks
 // Oracle (reference model, kept boring): a request issued with a completion callback is pending until either a
 // response with its id is delivered (-> callback(errcode, result) exactly then; a service that answers synchronously
 // delivers it inside request()) or the TimeoutMonitor ring has ticked timeout_sec times since it was added
-// (-> callback(kRequestTimeout, null) in exactly that tick). Nothing else may invoke a callback: duplicates, late
-// responses, unknown / future / zero ids, responses with the same numeric id travelling in the other direction are ignored.
-// Rpc::cleanup() + initialize() starts a second session: requests of the first session are never called back afterwards
-// (READING: cleanup() may either drop them silently - what the code does - or complete them with an error while it runs;
-// both satisfy "never twice, never later"), responses carrying their ids are ignored, and requests of the second session
-// complete exactly like those of the first, timeouts included.
+// (-> callback(kRequestTimeout, null) in exactly that tick; the ring's 1 s timer starts when an id is added to an empty ring and runs while it holds one).
+// Nothing else may invoke a callback: duplicates, late responses, unknown / future / zero ids, responses with the same numeric id travelling
+// in the other direction are ignored. A request issued while the proto has no send callback reaches nobody and times out.
+// Rpc::cleanup() ends a session: its requests are never called back afterwards (READING: cleanup() may either drop them silently - what the
+// code does - or complete them with an error while it runs; both satisfy "never twice, never later"), responses carrying their ids are
+// ignored, and requests of the session started by the next initialize() complete exactly like those of the first, timeouts included.
+// Private members are read ONLY for the canonical state key, through engine/probe.h (a renamed member degrades the key - the last 3 ops are
+// appended then - instead of breaking the build); the experiment itself is driven through public API (ids are read from the bytes on the wire).
 #include "hist/hist.h"
+#include "probe.h"
 #include <tbox/base/json.hpp>
 #include <tbox/event/loop.h>
 #include <tbox/event/common_loop.h>
@@ -53,9 +56,64 @@ extern "C" int select(int nfds, fd_set *r, fd_set *w, fd_set *e, struct timeval 
 }
 struct Virt { Virt() { g_virt = true; g_mono_ms = 5000000; } ~Virt() { g_virt = false; } };
 
-static Proto *mk_proto(const std::string &p) { if (p == "raw") return new RawStreamProto; if (p == "header") return new HeaderStreamProto(0x3e5a); return new PacketProto; }
+// the protos' encoder (protected virtual sendJson) is reached through a subclass, not through an access bypass
+template <class P> struct Open : P { using P::P; using P::sendJson; };
+typedef std::function<void(const Json &)> SendJson;
+static Proto *mk_proto(const std::string &p, SendJson &sj) {
+  if (p == "raw") { auto *x = new Open<RawStreamProto>; sj = [x](const Json &j) { x->sendJson(j); }; return x; }
+  if (p == "header") { auto *x = new Open<HeaderStreamProto>(0x3e5a); sj = [x](const Json &j) { x->sendJson(j); }; return x; }
+  auto *x = new Open<PacketProto>; sj = [x](const Json &j) { x->sendJson(j); }; return x;
+}
+// the id of a request as it travels (bytes given to the send callback): 0 if the bytes are not a request with an id
+static int wire_request_id(const std::string &proto, const void *d, size_t n) {
+  size_t off = proto == "header" ? 6 : 0; if (n <= off) return 0;
+  try { Json j = Json::parse(std::string((const char *)d + off, n - off)); if (j.is_object() && j.contains("method") && j.contains("id") && j["id"].is_number_integer()) return j["id"].get<int>(); } catch (...) {}
+  return 0;
+}
 
-enum Kind { REQ, RSP, UNK, ADV, REINIT, BREQ, BRSP };
+// ---- probes (canonical key only) -------------------------------------------------------------------------------------------------
+VF_PROBE(id_alloc_) VF_PROBE(value_number_) VF_PROBE(recv_request_cb_) VF_PROBE(recv_respond_cb_) VF_PROBE(send_data_cb_) VF_PROBE(expired)
+// pointer to a member, or nullptr (reported once through probe.h) when the member does not exist
+#define C14_PTR_PROBE(name)                                                                                     \
+  struct c14_ptr_##name {                                                                                       \
+    template <class T> static auto get(T &o, int) -> decltype(&o.name) { return &o.name; }                      \
+    template <class T> static std::nullptr_t get(T &, long) { vf_note_missing(#name); return nullptr; } };
+#define C14_PTR(name, obj) c14_ptr_##name::get((obj), 0)
+C14_PTR_PROBE(request_callback_) C14_PTR_PROBE(tobe_respond_) C14_PTR_PROBE(method_services_) C14_PTR_PROBE(proto_) C14_PTR_PROBE(request_timeout_) C14_PTR_PROBE(respond_timeout_)
+C14_PTR_PROBE(curr_item_) C14_PTR_PROBE(items) C14_PTR_PROBE(next) C14_PTR_PROBE(sp_timer_) C14_PTR_PROBE(cb_) C14_PTR_PROBE(timer_min_heap_)
+namespace key {
+static std::string ints(std::nullptr_t) { return "?"; }
+template <class C> static std::string ints(C *c) { std::vector<long> v; for (auto &x : *c) v.push_back((long)x); std::sort(v.begin(), v.end()); std::string s; for (long x : v) s += std::to_string(x) + ","; return s; }
+static std::string seq(std::nullptr_t) { return "?"; }
+template <class C> static std::string seq(C *c) { std::string s; for (auto &x : *c) s += std::to_string((long)x) + ","; return s; }
+static std::string keys(std::nullptr_t) { return "?"; }
+template <class M> static std::string keys(M *m) { std::vector<long> v; for (auto &kv : *m) v.push_back((long)kv.first); std::sort(v.begin(), v.end()); std::string s; for (long x : v) s += std::to_string(x) + ","; return s; }
+static std::string names(std::nullptr_t) { return "?"; }
+template <class M> static std::string names(M *m) { std::vector<std::string> v; for (auto &kv : *m) v.push_back(kv.first + (kv.second ? "" : "!null")); std::sort(v.begin(), v.end()); std::string s; for (auto &x : v) s += x + ","; return s; }
+static std::string enabled(std::nullptr_t) { return "?"; }
+template <class T> static std::string enabled(T **t) { return !*t ? "0" : (*t)->isEnabled() ? "E" : "d"; }
+static std::string isset(std::nullptr_t) { return "?"; }
+template <class F> static std::string isset(F *f) { return *f ? "" : "!nocb"; }
+template <class I> static I *deref(I **p) { return *p; }
+static std::nullptr_t deref(std::nullptr_t) { return nullptr; }
+static std::string walk(std::nullptr_t) { return "?"; }
+template <class Item> static std::string walk(Item **pcur) {
+  Item *cur = *pcur; if (!cur) return "none"; std::string s; Item *it = cur; int guard = 0;
+  do { s += '[' + seq(C14_PTR(items, *it)) + ']'; it = deref(C14_PTR(next, *it)); } while (it && it != cur && ++guard < 4096);
+  return s; }
+static std::string ring(std::nullptr_t) { return "?"; }
+template <class TM> static std::string ring(TM *m) { return walk(C14_PTR(curr_item_, *m)) + "n" + std::to_string(VF_GET(value_number_, *m, (long)-1)) + enabled(C14_PTR(sp_timer_, *m)) + isset(C14_PTR(cb_, *m)); }
+static std::string wired(std::nullptr_t) { return " proto?"; }
+template <class P> static std::string wired(P **pp) { if (!*pp) return " noproto";
+  return std::string(" wired:") + (VF_GET(recv_request_cb_, **pp, false) ? "q" : "-") + (VF_GET(recv_respond_cb_, **pp, false) ? "r" : "-") + (VF_GET(send_data_cb_, **pp, false) ? "s" : "-"); }
+static std::string heap(std::nullptr_t) { return "?"; }
+template <class H> static std::string heap(H *h) { std::vector<long> due; for (auto *t : *h) due.push_back((long)(VF_GET(expired, *t, (int64_t)0) - g_mono_ms)); std::sort(due.begin(), due.end()); std::string s; for (long d : due) s += std::to_string(d) + ","; return s; }
+static std::string side(Rpc &r) {
+  return "id" + std::to_string(VF_GET(id_alloc_, r, -1)) + " cb{" + keys(C14_PTR(request_callback_, r)) + "} tbr{" + ints(C14_PTR(tobe_respond_, r)) + "} " +
+         ring(C14_PTR(request_timeout_, r)) + "/" + ring(C14_PTR(respond_timeout_, r)) + " svc{" + names(C14_PTR(method_services_, r)) + "}" + wired(C14_PTR(proto_, r)); }
+}  // namespace key
+
+enum Kind { REQ, RSP, UNK, ADV, HALF, DOWN, UP, KILL, DISC, CONN, BREQ, BRSP };
 // how a request is issued / answered / what its completion callback does
 enum Beh { PLAIN = 0,       // request(method, params, cb); the peer's service defers its answer (respond() later)
            FOLLOW = 1,      // as PLAIN; the completion callback issues a follow-up request
@@ -64,55 +122,81 @@ enum Beh { PLAIN = 0,       // request(method, params, cb); the peer's service d
            NO_METHOD = 4,   // the peer has no such method: it answers kMethodNotFound synchronously
            SYNC_FOLLOW = 5, // SYNC_RES whose completion callback (running inside request()) issues a follow-up request
            NOTIFY_OVL = 6,  // notify(method, params) + notify(method) first, then the request(method, cb) overload without params
+           CLEAN = 7,       // as PLAIN; the completion callback, when it gets a RESPONSE, runs Rpc::cleanup() + initialize() + addService()
            NBEH };
 static const char *BEHN[] = {"plain", "cb-issues-followup", "peer-answers-synchronously", "peer-answers-synchronously-with-error", "unknown-method",
-                             "peer-answers-synchronously+cb-issues-followup", "after-two-notifications,no-params-overload"};
+                             "peer-answers-synchronously+cb-issues-followup", "after-two-notifications,no-params-overload", "cb-runs-cleanup+initialize"};
 struct Op { int k, a, b; };
 static const int MAXREQ = 3;         // requests A -> B per history
 static const int BREQ_SLOT = MAXREQ; // the single request B -> A is reported as request #MAXREQ
 static int g_timeout = 2, g_timeout_arg = 2, g_adv_steps = 1;
 static unsigned g_beh_mask = 0x7f;   // request behaviours on the menu (bit per Beh)
-static bool g_reinit = true, g_breq = true;
+static bool g_reinit = true, g_breq = true, g_half = false, g_disc = false;
+static bool g_clean_in_timeout = false;   // switch C14_CLEAN_IN_TIMEOUT=1 (default off: the unchanged library fails it): CLEAN also acts in a TIMEOUT callback
 
 // ---- reference model ----------------------------------------------------------------------------------------
 struct Ev { int req; int errcode; int val; };      // callback of request #req with (errcode, result == {"r":val} or null if val<0)
 static bool operator==(const Ev &a, const Ev &b) { return a.req == b.req && a.errcode == b.errcode && a.val == b.val; }
-struct MReq { int beh; bool pending; int remaining; };   // remaining = ticks until the ring drops the id (0 = gone)
+struct MReq { int beh; bool pending; int remaining; bool delivered; };   // remaining = ring ticks until the ring drops the id (0 = gone)
+static bool chains(int beh) { return beh == FOLLOW || beh == SYNC_FOLLOW; }
 struct Model {
-  std::vector<MReq> r; bool reinit_done = false;
-  bool b_issued = false; MReq bq{0, false, 0};
+  std::vector<MReq> r; int tmoA = 0;           // timeout_sec of A's current session
+  int tickA = 0, tickB = 0;                    // half seconds until the side's ring ticks (meaningful while the ring holds an id)
+  bool up = true, down_done = false, up_done = false, killed = false, connected = true, disc_done = false, conn_done = false, reinit_in_op = false;
+  int sessions = 1;
+  bool b_issued = false, b_delivered = false; MReq bq{0, false, 0, false};
+  Model() { tmoA = g_timeout; }
+  int heldA() const { int n = 0; for (auto &x : r) if (x.remaining > 0) n++; return n; }
+  void end_session() { for (auto &x : r) { x.pending = false; x.remaining = 0; } reinit_in_op = true; }   // nothing of it may complete any more; the ring is gone
   void complete(int i, int code, int val, std::vector<Ev> &exp, std::vector<int> &chain) {
-    r[i].pending = false; exp.push_back(Ev{i, code, val}); if (r[i].beh == FOLLOW || r[i].beh == SYNC_FOLLOW) chain.push_back(i); }
+    r[i].pending = false; exp.push_back(Ev{i, code, val});
+    if (chains(r[i].beh)) chain.push_back(i);
+    if (r[i].beh == CLEAN && (code != ErrorCode::kRequestTimeout || g_clean_in_timeout)) { end_session(); sessions++; } }
   void issue(int beh, std::vector<Ev> &exp, std::vector<int> &chain) {
-    r.push_back(MReq{beh, true, g_timeout}); int i = (int)r.size() - 1;
+    if (heldA() == 0) tickA = 2;
+    r.push_back(MReq{beh, true, tmoA, connected}); int i = (int)r.size() - 1;
+    if (!connected) return;                                     // nothing leaves: it can only time out
     if (beh == SYNC_RES || beh == SYNC_FOLLOW) complete(i, 0, i, exp, chain);
     else if (beh == SYNC_ERR) complete(i, 100 + i, -1, exp, chain);
     else if (beh == NO_METHOD) complete(i, ErrorCode::kMethodNotFound, -1, exp, chain);
   }
   // follow-up requests are PLAIN (never complete synchronously), so one round settles the chain
-  void settle(std::vector<Ev> &exp, std::vector<int> &chain) { std::vector<int> none; for (size_t c = 0; c < chain.size(); c++) if ((int)r.size() < MAXREQ) issue(PLAIN, exp, none); chain.clear(); }
+  void settle(std::vector<Ev> &exp, std::vector<int> &chain) { std::vector<int> none; for (size_t c = 0; c < chain.size(); c++) if ((int)r.size() < MAXREQ && up && !killed) issue(PLAIN, exp, none); chain.clear(); }
+  void half_step(std::vector<Ev> &exp) {
+    std::vector<int> chain;
+    if (heldA() > 0 && --tickA == 0) {
+      size_t n = r.size();
+      for (size_t i = 0; i < n; i++) if (r[i].remaining > 0 && --r[i].remaining == 0 && r[i].pending) complete((int)i, ErrorCode::kRequestTimeout, -1, exp, chain);
+      settle(exp, chain);
+      if (heldA() > 0) tickA = 2; }
+    if (bq.remaining > 0 && --tickB == 0) {
+      if (--bq.remaining == 0 && bq.pending) { bq.pending = false; exp.push_back(Ev{BREQ_SLOT, ErrorCode::kRequestTimeout, -1}); }
+      if (bq.remaining > 0) tickB = 2; }
+  }
   // one op; returns the callbacks that must happen during it
   std::vector<Ev> step(const Op &o) {
-    std::vector<Ev> exp; std::vector<int> chain;
+    std::vector<Ev> exp; std::vector<int> chain; reinit_in_op = false;
     switch (o.k) {
-      case REQ: if ((int)r.size() < MAXREQ) { issue(o.a, exp, chain); settle(exp, chain); } break;
-      case RSP: if (o.a < (int)r.size() && r[o.a].pending) { if (o.b == 0) complete(o.a, 0, o.a, exp, chain); else complete(o.a, 100 + o.a, -1, exp, chain); settle(exp, chain); } break;
+      case REQ: if ((int)r.size() < MAXREQ && up && !killed) { issue(o.a, exp, chain); settle(exp, chain); } break;
+      case RSP: if (o.a < (int)r.size() && r[o.a].pending && r[o.a].delivered && up && !killed) { if (o.b == 0) complete(o.a, 0, o.a, exp, chain); else complete(o.a, 100 + o.a, -1, exp, chain); settle(exp, chain); } break;
       case UNK: break;
-      case ADV: for (int s = 0; s < g_adv_steps; s++) {
-          size_t n = r.size();
-          for (size_t i = 0; i < n; i++) if (r[i].remaining > 0 && --r[i].remaining == 0 && r[i].pending) complete((int)i, ErrorCode::kRequestTimeout, -1, exp, chain);
-          settle(exp, chain);
-          if (bq.remaining > 0 && --bq.remaining == 0 && bq.pending) { bq.pending = false; exp.push_back(Ev{BREQ_SLOT, ErrorCode::kRequestTimeout, -1}); } }
-        break;
-      case REINIT: reinit_done = true; for (auto &x : r) { x.pending = false; x.remaining = 0; } break;   // session 1 is over: nothing of it may complete any more
-      case BREQ: if (!b_issued) { b_issued = true; bq = MReq{PLAIN, true, g_timeout}; } break;
-      case BRSP: if (b_issued && bq.pending) { bq.pending = false; exp.push_back(Ev{BREQ_SLOT, 0, 50}); } break;
+      case ADV: for (int s = 0; s < 2 * g_adv_steps; s++) half_step(exp); break;
+      case HALF: half_step(exp); break;
+      case DOWN: down_done = true; up = false; end_session(); break;
+      case UP: up_done = true; up = true; sessions++; tmoA = g_timeout + o.a; break;
+      case KILL: killed = true; end_session(); break;
+      case DISC: disc_done = true; connected = false; break;
+      case CONN: conn_done = true; connected = true; break;
+      case BREQ: if (!b_issued) { b_issued = true; b_delivered = up && !killed; bq = MReq{PLAIN, true, g_timeout, b_delivered}; tickB = 2; } break;
+      case BRSP: if (b_issued && b_delivered && bq.pending && up && !killed && connected) { bq.pending = false; exp.push_back(Ev{BREQ_SLOT, 0, 50}); } break;
     }
     return exp;
   }
-  std::string canon() const {   // only what can influence the future: pending requests (countdown, whether completion chains), the request budget
-    std::string c; for (auto &x : r) { if (x.pending) c += ((x.beh == FOLLOW || x.beh == SYNC_FOLLOW) ? "F" : "p") + std::to_string(x.remaining); else c += "d"; c += ","; }
-    c += reinit_done ? "|R" : "|-"; c += !b_issued ? "|-" : bq.pending ? "|p" + std::to_string(bq.remaining) : "|d";
+  std::string canon() const {   // only what can influence the future
+    std::string c; for (auto &x : r) { if (x.pending) c += std::string(chains(x.beh) ? "F" : x.beh == CLEAN ? "C" : "p") + std::to_string(x.remaining) + (x.delivered ? "" : "u"); else c += "d" + std::to_string(x.remaining); c += ","; }
+    c += "|t" + std::to_string(heldA() ? tickA : 0) + "/" + std::to_string(bq.remaining > 0 ? tickB : 0) + " tmo" + std::to_string(tmoA);
+    c += std::string("|") + (up ? "U" : "D") + (down_done ? "d" : "-") + (up_done ? "u" : "-") + (killed ? "K" : "-") + (connected ? "C" : "X") + (disc_done ? "x" : "-") + (conn_done ? "c" : "-") + "s" + std::to_string(sessions);
+    c += !b_issued ? "|-" : bq.pending ? std::string("|p") + std::to_string(bq.remaining) + (b_delivered ? "" : "u") : "|d" + std::to_string(bq.remaining);
     return c;
   }
 };
@@ -121,21 +205,28 @@ struct Model {
 static int result_val(const Json &res) { if (res.is_object() && res.contains("r") && res["r"].is_number_integer()) return res["r"].get<int>(); return res.is_null() ? -1 : -2; }
 
 struct World {
-  Loop *loop = nullptr; std::unique_ptr<Proto> pa, pb; std::unique_ptr<Rpc> a, b;
+  std::string proto;
+  Loop *loop = nullptr; std::unique_ptr<Proto> pa, pb; SendJson ja, jb; std::unique_ptr<Rpc> a, b;
   int peer_ids[MAXREQ];                 // id under which peer B's service received request #i (-1: not received)
-  int wire_ids[MAXREQ];                 // id A used on the wire for a request the peer's services never saw (unknown method)
+  int wire_ids[MAXREQ];                 // id A used on the wire for request #i, read from the bytes A's proto sent (-1: nothing was sent)
+  int a_wire_last = 0, a_wire_max = 0;  // newest / largest request id seen on A's wire
   int a_peer_id = -1;                   // id under which A's service received B's request
+  bool b_issued = false, a_up = true, a_connected = true;
+  int tmo_arg_a;                        // timeout_sec argument of A's current session (0 = default)
   int notes = 0;                        // notifications seen by B's service
   std::vector<Ev> events; int issued = 0; std::string viol;
   std::vector<int> beh;
-  void init_a() { if (g_timeout_arg > 0) a->initialize(pa.get(), g_timeout_arg); else a->initialize(pa.get());
+  void init_a() { if (tmo_arg_a > 0) a->initialize(pa.get(), tmo_arg_a); else a->initialize(pa.get()); a_up = true;
     a->addService("s", [this](int id, const Json &, int &, Json &) { if (a_peer_id > 0 && viol.empty()) viol = "peer-request-delivered-twice"; a_peer_id = id; return false; }); }
-  World(const std::string &proto, const std::string &engine) {
+  void connect_a() { a_connected = true;
+    pa->setSendCallback([this](const void *d, size_t n) { int id = wire_request_id(proto, d, n); if (id) { a_wire_last = id; a_wire_max = std::max(a_wire_max, id); }
+      ssize_t r = pb->onRecvData(d, n); if (r != (ssize_t)n) viol = "request-not-consumed-by-peer ret=" + std::to_string(r); }); }
+  World(const std::string &proto_, const std::string &engine) : proto(proto_), tmo_arg_a(g_timeout_arg) {
     for (int i = 0; i < MAXREQ; i++) peer_ids[i] = wire_ids[i] = -1;
-    loop = Loop::New(engine); pa.reset(mk_proto(proto)); pb.reset(mk_proto(proto)); a.reset(new Rpc(loop)); b.reset(new Rpc(loop));
+    loop = Loop::New(engine); pa.reset(mk_proto(proto, ja)); pb.reset(mk_proto(proto, jb)); a.reset(new Rpc(loop)); b.reset(new Rpc(loop));
     init_a();
     if (g_timeout_arg > 0) b->initialize(pb.get(), g_timeout_arg); else b->initialize(pb.get());
-    pa->setSendCallback([this](const void *d, size_t n) { ssize_t r = pb->onRecvData(d, n); if (r != (ssize_t)n) viol = "request-not-consumed-by-peer ret=" + std::to_string(r); });
+    connect_a();
     pb->setSendCallback([this](const void *d, size_t n) { ssize_t r = pa->onRecvData(d, n); if (r != (ssize_t)n) viol = "response-not-consumed-by-requester ret=" + std::to_string(r); });
     auto svc = [this](bool has_params) { return [this, has_params](int id, const Json &params, int &errcode, Json &result) {
       if (id == 0) { notes++; return false; }                      // a notification
@@ -151,75 +242,69 @@ struct World {
     b->addService("m", svc(true)); b->addService("q", svc(false));
   }
   void request(int b_) {
-    if (issued >= MAXREQ) return;
+    if (issued >= MAXREQ || !a_up || !a) return;
     int i = issued++; beh.push_back(b_);
     Json params = Json::object(); params["n"] = i;
     if (b_ == SYNC_RES || b_ == SYNC_FOLLOW) params["sync"] = 1; else if (b_ == SYNC_ERR) params["sync"] = 2;
     auto cb = [this, i](int errcode, const Json &res) {
       events.push_back(Ev{i, errcode, result_val(res)});
-      if (beh[i] == FOLLOW || beh[i] == SYNC_FOLLOW) request(PLAIN);   // a completion that issues a follow-up request
+      if (chains(beh[i])) request(PLAIN);                              // a completion that issues a follow-up request
+      if (beh[i] == CLEAN && (errcode != ErrorCode::kRequestTimeout || g_clean_in_timeout)) { a->cleanup(); init_a(); }
     };
-    if (b_ == NO_METHOD) { a->request("nosuch", params, cb); wire_ids[i] = a->id_alloc_; }
+    bool was_connected = a_connected; a_wire_last = 0;
+    if (b_ == NO_METHOD) a->request("nosuch", params, cb);
     else if (b_ == NOTIFY_OVL) { int n0 = notes; Json np = Json::object(); np["n"] = -1; a->notify("m", np); a->notify("m");
-      if (notes != n0 + 2 && viol.empty()) viol = "notification-not-delivered-to-peer-exactly-once";
+      if (was_connected && notes != n0 + 2 && viol.empty()) viol = "notification-not-delivered-to-peer-exactly-once";
       a->request("q", cb); }
     else a->request("m", params, cb);
+    if (!was_connected) { if (viol.empty() && (peer_ids[i] >= 0 || a_wire_last)) viol = "request-left-a-proto-that-has-no-send-callback"; return; }
+    if (b_ == NO_METHOD) wire_ids[i] = a_wire_last ? a_wire_last : -1;
     if (viol.empty() && b_ != NO_METHOD && peer_ids[i] < 0) viol = "request-not-delivered-to-peer";
-    if (viol.empty() && b_ == NO_METHOD && peer_ids[i] >= 0) viol = "peer-received-a-different-request-than-sent";
+    if (viol.empty() && b_ == NO_METHOD && (peer_ids[i] >= 0 || wire_ids[i] < 0)) viol = "peer-received-a-different-request-than-sent";
   }
   void pass() { loop->runNext([] {}); loop->runLoop(Loop::Mode::kOnce); }
+  void half() { g_mono_ms += 500; pass(); }
   void apply(const Op &o) {
     switch (o.k) {
       case REQ: request(o.a); break;
       case RSP: if (o.a < issued) { int id = peer_ids[o.a] >= 0 ? peer_ids[o.a] : wire_ids[o.a]; if (id <= 0) break;
           if (o.b == 0) { Json res = Json::object(); res["r"] = o.a; b->respond(id, res); } else b->respond(id, 100 + o.a); } break;
-      case UNK: { Json res = Json::object(); res["r"] = 9;           // three responses nobody asked for, one after the other
-        b->respond(a->id_alloc_ + 1, res);                         // an id that has not been issued yet
+      case UNK: { Json res = Json::object(); res["r"] = 9;           // responses nobody asked for, one after the other
+        b->respond(a_wire_max + 1, res);                           // an id that has not been issued yet
         b->respond(1000, 55);                                      // error reply with an id never issued
         pb->sendResult(0, res); pb->sendError(0, 55);              // id 0
         pb->sendResult(-1, res);                                   // a negative id
         // ids that differ from an ISSUED id by a multiple of 2^32 (equal to it after truncation to 32 bits): unknown ids like any other
-        for (int i = 0; i <= issued; i++) {
-          int id = i == issued ? a->id_alloc_ : peer_ids[i] >= 0 ? peer_ids[i] : wire_ids[i]; if (id <= 0) continue;
+        for (int id = 1; id <= a_wire_max; id++) {
           for (int64_t off : {(int64_t)1 << 32, -((int64_t)1 << 32), (int64_t)3 << 32}) {
-            Json m = Json::object(); m["jsonrpc"] = "2.0"; m["id"] = (int64_t)id + off; m["result"] = res; pb->sendJson(m);
-            Json e = Json::object(); e["jsonrpc"] = "2.0"; e["id"] = (int64_t)id + off; e["error"]["code"] = 55; pb->sendJson(e); }
-          Json u = Json::object(); u["jsonrpc"] = "2.0"; u["id"] = (uint64_t)id + ((uint64_t)0xffffffffu << 32); u["result"] = res; pb->sendJson(u); }
-        if (a_peer_id > 0) { Json m = Json::object(); m["jsonrpc"] = "2.0"; m["id"] = (int64_t)a_peer_id + ((int64_t)1 << 32); m["result"] = res; pa->sendJson(m); }   // and in the other direction
+            Json m = Json::object(); m["jsonrpc"] = "2.0"; m["id"] = (int64_t)id + off; m["result"] = res; jb(m);
+            Json e = Json::object(); e["jsonrpc"] = "2.0"; e["id"] = (int64_t)id + off; e["error"]["code"] = 55; jb(e); }
+          Json u = Json::object(); u["jsonrpc"] = "2.0"; u["id"] = (uint64_t)id + ((uint64_t)0xffffffffu << 32); u["result"] = res; jb(u); }
+        if (a_peer_id > 0 && a) { Json m = Json::object(); m["jsonrpc"] = "2.0"; m["id"] = (int64_t)a_peer_id + ((int64_t)1 << 32); m["result"] = res; ja(m); }   // and in the other direction
         } break;
-      case ADV: for (int s = 0; s < g_adv_steps; s++) { g_mono_ms += 1000; pass(); } break;
-      case REINIT: { a->cleanup();
-        // the transport keeps delivering while the Rpc is gone (its borrowed proto has no receive callbacks now): a result and an
-        // error for an id of session 1, and a request; all must be swallowed
-        Json res = Json::object(); res["r"] = 0; pb->sendResult(1, res); pb->sendError(2, 77); pb->sendRequest(9, "s", res);
-        init_a(); } break;
-      case BREQ: if (a_peer_id < 0) { Json p = Json::object(); p["k"] = 1;
+      case ADV: for (int s = 0; s < 2 * g_adv_steps; s++) half(); break;
+      case HALF: half(); break;
+      case DOWN: a->cleanup(); a_up = false; break;                 // (the borrowed proto now has no receive callbacks; later ops keep delivering into it)
+      case UP: tmo_arg_a = o.a ? g_timeout + o.a : g_timeout_arg; init_a(); break;
+      case KILL: a.reset(); a_up = false; break;                   // destroyed WITHOUT cleanup(); afterwards only the clock moves
+      case DISC: pa->setSendCallback(nullptr); a_connected = false; break;
+      case CONN: connect_a(); break;
+      case BREQ: if (!b_issued) { b_issued = true; Json p = Json::object(); p["k"] = 1;
           b->request("s", p, [this](int errcode, const Json &res) { events.push_back(Ev{BREQ_SLOT, errcode, result_val(res)}); });
-          if (a_peer_id < 0 && viol.empty()) viol = "peer-request-not-delivered"; } break;
-      case BRSP: if (a_peer_id > 0) { Json res = Json::object(); res["r"] = 50; a->respond(a_peer_id, res); } break;
+          if (a_up && a_peer_id < 0 && viol.empty()) viol = "peer-request-not-delivered";
+          if (!a_up && a_peer_id > 0 && viol.empty()) viol = "peer-request-delivered-to-a-cleaned-up-rpc"; } break;
+      case BRSP: if (a_peer_id > 0 && a_up && a) { Json res = Json::object(); res["r"] = 50; a->respond(a_peer_id, res); } break;
     }
   }
-  template <class TM> static std::string ring(TM &m) {
-    std::string s; if (!m.curr_item_) return "none"; auto *it = m.curr_item_;
-    do { s += '['; for (int v : it->items) s += std::to_string(v) + ","; s += ']'; it = it->next; } while (it != m.curr_item_);
-    return s + "n" + std::to_string(m.value_number_) + (m.sp_timer_->isEnabled() ? "E" : "d") + (m.cb_ ? "" : "!nocb");
-  }
-  static std::string side(Rpc &r) {
-    std::string c = "id" + std::to_string(r.id_alloc_) + " cb{"; std::vector<int> ks; for (auto &kv : r.request_callback_) ks.push_back(kv.first); std::sort(ks.begin(), ks.end());
-    for (int k : ks) c += std::to_string(k) + ","; c += "} tbr{"; ks.assign(r.tobe_respond_.begin(), r.tobe_respond_.end()); std::sort(ks.begin(), ks.end()); for (int k : ks) c += std::to_string(k) + ",";
-    c += "} " + ring(r.request_timeout_) + "/" + ring(r.respond_timeout_) + " svc{"; std::vector<std::string> ms; for (auto &kv : r.method_services_) ms.push_back(kv.first + (kv.second ? "" : "!null")); std::sort(ms.begin(), ms.end());
-    for (auto &m : ms) c += m + ","; c += "}";
-    if (r.proto_) c += std::string(" wired:") + (r.proto_->recv_request_cb_ ? "q" : "-") + (r.proto_->recv_respond_cb_ ? "r" : "-") + (r.proto_->send_data_cb_ ? "s" : "-"); else c += " noproto";
-    return c;
-  }
   std::string canon() {
-    std::string c = "A:" + side(*a) + " B:" + side(*b);
-    CommonLoop *cl = static_cast<CommonLoop *>(loop); std::vector<long> due; for (auto *t : cl->timer_min_heap_) due.push_back((long)((int64_t)t->expired - g_mono_ms)); std::sort(due.begin(), due.end());
-    c += " T:"; for (long d : due) c += std::to_string(d) + ",";
-    c += " W:"; for (int i = 0; i < MAXREQ; i++) c += std::to_string(peer_ids[i]) + "/" + std::to_string(wire_ids[i]) + ","; c += std::to_string(a_peer_id);
+    std::string c = "A:" + (a ? key::side(*a) : std::string("gone")) + " B:" + key::side(*b);
+    CommonLoop *cl = static_cast<CommonLoop *>(loop);
+    c += " T:" + key::heap(C14_PTR(timer_min_heap_, *cl));
+    c += " W:"; for (int i = 0; i < MAXREQ; i++) c += std::to_string(peer_ids[i]) + "/" + std::to_string(wire_ids[i]) + ","; c += std::to_string(a_peer_id) + "/" + std::to_string(a_wire_max);
+    c += std::string(VF_GET(send_data_cb_, *pa, false) ? " s" : " -");
     return c;
   }
-  ~World() { a->cleanup(); b->cleanup(); a.reset(); b.reset(); loop->cleanup(); delete loop; }
+  ~World() { if (a) { if (a_up) a->cleanup(); } b->cleanup(); a.reset(); b.reset(); loop->cleanup(); delete loop; }
 };
 
 // ---- deterministic lane (outside the BFS): sizes and re-entrancy the 3-request BFS cannot reach -------------------------------
@@ -230,13 +315,13 @@ struct World {
 // and - READING - either of the two when the response is delivered re-entrantly during that very tick (order within a tick is
 // not promised).
 struct Lane {
-  Loop *loop; std::unique_ptr<Proto> pa, pb; std::unique_ptr<Rpc> a, b;
+  Loop *loop; std::unique_ptr<Proto> pa, pb; SendJson ja, jb; std::unique_ptr<Rpc> a, b;
   struct R { int calls = 0, code = 0, val = 0, peer_id = -1, issued_tick = 0, done_tick = -1; bool sync = false; };
   std::vector<R> rq; int tick = 0; std::string viol; long execs = 0;
   std::function<void(int idx, int errcode)> hook;      // scenario: what a completion callback does
   int timeout;
   Lane(const std::string &proto, const std::string &engine, int tmo) : timeout(tmo) {
-    loop = Loop::New(engine); pa.reset(mk_proto(proto)); pb.reset(mk_proto(proto)); a.reset(new Rpc(loop)); b.reset(new Rpc(loop));
+    loop = Loop::New(engine); pa.reset(mk_proto(proto, ja)); pb.reset(mk_proto(proto, jb)); a.reset(new Rpc(loop)); b.reset(new Rpc(loop));
     a->initialize(pa.get(), tmo); b->initialize(pb.get(), tmo);
     pa->setSendCallback([this](const void *d, size_t n) { if (pb->onRecvData(d, n) != (ssize_t)n && viol.empty()) viol = "request-not-consumed-by-peer"; });
     pb->setSendCallback([this](const void *d, size_t n) { if (pa->onRecvData(d, n) != (ssize_t)n && viol.empty()) viol = "response-not-consumed-by-requester"; });
@@ -257,8 +342,8 @@ struct Lane {
   }
   void respond(int i) { execs++; Json res = Json::object(); res["r"] = i; b->respond(rq[i].peer_id, res); }
   // a response whose id equals request i's id only after truncation to 32 bits: an unknown id
-  void respond_wrapped(int i) { execs++; Json res = Json::object(); res["r"] = 9999; Json m = Json::object(); m["jsonrpc"] = "2.0"; m["id"] = (int64_t)rq[i].peer_id + ((int64_t)1 << 32); m["result"] = res; pb->sendJson(m);
-    Json e = Json::object(); e["jsonrpc"] = "2.0"; e["id"] = (int64_t)rq[i].peer_id - ((int64_t)1 << 32); e["error"]["code"] = 9999; pb->sendJson(e); }
+  void respond_wrapped(int i) { execs++; Json res = Json::object(); res["r"] = 9999; Json m = Json::object(); m["jsonrpc"] = "2.0"; m["id"] = (int64_t)rq[i].peer_id + ((int64_t)1 << 32); m["result"] = res; jb(m);
+    Json e = Json::object(); e["jsonrpc"] = "2.0"; e["id"] = (int64_t)rq[i].peer_id - ((int64_t)1 << 32); e["error"]["code"] = 9999; jb(e); }
   void advance() { tick++; g_mono_ms += 1000; execs++; loop->runNext([] {}); loop->runLoop(Loop::Mode::kOnce); }
 };
 static long g_lane_states = 0, g_lane_execs = 0, g_lane_viols = 0;
@@ -359,31 +444,45 @@ int main(int argc, char **argv) {
   }
   g_timeout_arg = argc > 3 ? atoi(argv[3]) : 2; size_t depth = argc > 4 ? atoi(argv[4]) : 7;
   g_timeout = g_timeout_arg > 0 ? g_timeout_arg : 30;        // Rpc::initialize(proto, timeout_sec = 30)
-  g_adv_steps = g_timeout >= 10 ? 10 : 1;                     // with the 30 s default one "advance" op is ten 1-s ticks
-  // argv[5]: optional ops on the menu, 'r' = cleanup+initialize, 'b' = a request in the opposite direction (default both)
-  std::string opt = argc > 5 ? argv[5] : "rb"; g_reinit = opt.find('r') != std::string::npos; g_breq = opt.find('b') != std::string::npos;
-  g_beh_mask = (unsigned)hx::env_int("C14_BEH_MASK", 127);
+  g_adv_steps = g_timeout >= 10 ? 10 : 1;                     // with the 30 s default one "advance" op is ten seconds
+  // argv[5]: optional ops on the menu: r = cleanup ... initialize (separate ops, anything may happen in between) and destruction without cleanup,
+  // b = a request in the opposite direction, h = half-second clock steps, d = transport disconnected ... connected, c = request whose callback runs cleanup+initialize
+  std::string opt = argc > 5 ? argv[5] : "rb"; auto has = [&](char c) { return opt.find(c) != std::string::npos; };
+  g_reinit = has('r'); g_breq = has('b'); g_half = has('h'); g_disc = has('d');
+  g_beh_mask = (unsigned)hx::env_int("C14_BEH_MASK", has('c') ? 255 : 127);
+  g_clean_in_timeout = hx::env_int("C14_CLEAN_IN_TIMEOUT", 0) != 0;
   hx::install_crash_reporter("C14-rpc-crash");
-  hx::Explorer<Op> ex; ex.name = "rpc-" + proto + "-" + engine + "-timeout" + std::to_string(g_timeout) + (g_reinit ? "+reinit" : "") + (g_breq ? "+peerreq" : "");
+  hx::Explorer<Op> ex; ex.name = "rpc-" + proto + "-" + engine + "-timeout" + std::to_string(g_timeout) + "+" + opt;
   ex.deadline_s = hx::deadline_from_env(600);
   ex.fork_workers = (int)hx::env_int("VERIF_WORKERS", 0);
   ex.show = [](const Op &o) { char b[96];
-    if (o.k == REQ) snprintf(b, sizeof b, "request(%s)", BEHN[o.a]);
-    else if (o.k == RSP) snprintf(b, sizeof b, "deliver(#%d,%s)", o.a, o.b ? "error" : "result");
-    else if (o.k == UNK) snprintf(b, sizeof b, "deliver(future-id,id1000-error,id0,id0-error,id-1,issued-ids+-k*2^32)");
-    else if (o.k == REINIT) snprintf(b, sizeof b, "cleanup+deliveries-while-down+initialize");
-    else if (o.k == BREQ) snprintf(b, sizeof b, "peer-requests");
-    else if (o.k == BRSP) snprintf(b, sizeof b, "answer-peer-request");
-    else snprintf(b, sizeof b, "advance(%ds)+pass", g_adv_steps);
+    switch (o.k) {
+      case REQ: snprintf(b, sizeof b, "request(%s)", BEHN[o.a]); break;
+      case RSP: snprintf(b, sizeof b, "deliver(#%d,%s)", o.a, o.b ? "error" : "result"); break;
+      case UNK: snprintf(b, sizeof b, "deliver(future-id,id1000-error,id0,id0-error,id-1,issued-ids+-k*2^32)"); break;
+      case ADV: snprintf(b, sizeof b, "advance(%ds-in-half-seconds)+pass", g_adv_steps); break;
+      case HALF: snprintf(b, sizeof b, "advance(500ms)+pass"); break;
+      case DOWN: snprintf(b, sizeof b, "cleanup"); break;
+      case UP: snprintf(b, sizeof b, "initialize(timeout_sec%s)+addService", o.a ? "+1" : ""); break;
+      case KILL: snprintf(b, sizeof b, "destroy-without-cleanup"); break;
+      case DISC: snprintf(b, sizeof b, "proto.setSendCallback(null)"); break;
+      case CONN: snprintf(b, sizeof b, "proto.setSendCallback(restored)"); break;
+      case BREQ: snprintf(b, sizeof b, "peer-requests"); break;
+      default: snprintf(b, sizeof b, "answer-peer-request"); break; }
     return std::string(b); };
   ex.menu = [&](const std::vector<Op> &h) {
     Model m; for (auto &o : h) m.step(o);
     std::vector<Op> v;
-    if ((int)m.r.size() < MAXREQ) for (int bh = 0; bh < NBEH; bh++) if (g_beh_mask >> bh & 1) v.push_back({REQ, bh, 0});
-    for (int i = 0; i < (int)m.r.size(); i++) { v.push_back({RSP, i, 0}); v.push_back({RSP, i, 1}); }
+    if (m.killed) { v.push_back({ADV, 0, 0}); if (g_half) v.push_back({HALF, 0, 0}); return v; }   // the object is gone: only time passes
+    if ((int)m.r.size() < MAXREQ && m.up) for (int bh = 0; bh < NBEH; bh++) if (g_beh_mask >> bh & 1) {
+      if (!m.connected && !(bh == PLAIN || bh == FOLLOW)) continue;                                // nothing leaves a disconnected proto: only the deferred kinds make sense
+      v.push_back({REQ, bh, 0}); }
+    for (int i = 0; i < (int)m.r.size(); i++) if (m.r[i].delivered) { v.push_back({RSP, i, 0}); v.push_back({RSP, i, 1}); }
     v.push_back({ADV, 0, 0});
-    if (g_reinit && !m.reinit_done) v.push_back({REINIT, 0, 0});
-    if (g_breq) { if (!m.b_issued) v.push_back({BREQ, 0, 0}); else v.push_back({BRSP, 0, 0}); }
+    if (g_half) v.push_back({HALF, 0, 0});
+    if (g_reinit) { if (!m.down_done) { v.push_back({DOWN, 0, 0}); v.push_back({KILL, 0, 0}); } else if (!m.up_done) { v.push_back({UP, 0, 0}); v.push_back({UP, 1, 0}); } }
+    if (g_disc && m.up) { if (!m.disc_done) v.push_back({DISC, 0, 0}); else if (!m.conn_done) v.push_back({CONN, 0, 0}); }
+    if (g_breq) { if (!m.b_issued) v.push_back({BREQ, 0, 0}); else if (m.b_delivered && m.up) v.push_back({BRSP, 0, 0}); }
     v.push_back({UNK, 0, 0});
     return v; };
   ex.run = [&](const std::vector<Op> &h, std::string &viol) {
@@ -391,31 +490,36 @@ int main(int argc, char **argv) {
     std::vector<int> calls(MAXREQ + 1, 0);
     for (size_t n = 0; n < h.size() && viol.empty(); n++) {
       std::vector<bool> was_pending; for (auto &x : m.r) was_pending.push_back(x.pending);
+      int k = h[n].k; bool later_session = m.sessions > 1;
       std::vector<Ev> exp = m.step(h[n]);
       w.events.clear(); w.apply(h[n]);
       if (!w.viol.empty()) { viol = w.viol; break; }
+      bool clock = k == ADV || k == HALF;
       // every callback seen during this op must be expected, and every expected one seen, exactly once
       for (auto &e : w.events) {
         if (e.req < 0 || e.req > MAXREQ) { viol = "callback-for-unknown-request"; break; }
         calls[e.req]++;
         bool expected = false; for (auto &x : exp) if (x.req == e.req) expected = true;
-        if (calls[e.req] > 1) { viol = std::string("completion-callback-invoked-again-") + (h[n].k == ADV ? "by-timeout-after-completion" : (h[n].k == RSP || h[n].k == BRSP) ? "by-duplicate-or-late-response" : h[n].k == REINIT ? "by-cleanup" : "by-unrelated-op"); break; }
-        // reading: cleanup() may complete the requests it abandons with an error while it runs (the code drops them silently)
-        if (h[n].k == REINIT && e.req < (int)was_pending.size() && was_pending[e.req] && e.errcode != 0) continue;
-        if (!expected) { viol = std::string("completion-callback-invoked-unexpectedly-") + (h[n].k == ADV ? "timeout-before-deadline" : h[n].k == UNK ? "by-unknown-id-response" :
-                                  h[n].k == REINIT ? "by-delivery-while-cleaned-up" : (h[n].k == RSP && m.reinit_done) ? "by-response-to-a-request-of-the-previous-session" :
-                                  (h[n].k == BRSP || h[n].k == BREQ) ? "by-traffic-in-the-other-direction" : "by-op"); break; }
+        if (calls[e.req] > 1) { viol = std::string("completion-callback-invoked-again-") + (clock ? "by-timeout-after-completion" : (k == RSP || k == BRSP) ? "by-duplicate-or-late-response" : (k == DOWN || k == KILL) ? "by-cleanup" : "by-unrelated-op"); break; }
+        // reading: cleanup() / the destructor may complete the requests they abandon with an error while they run (the code drops them silently)
+        if (m.reinit_in_op && !expected && e.req < (int)was_pending.size() && was_pending[e.req] && e.errcode != 0) continue;
+        if (!expected) { viol = std::string("completion-callback-invoked-unexpectedly-") + (clock ? (m.killed ? "after-destruction" : !m.up ? "timeout-while-cleaned-up" : "timeout-before-deadline") : k == UNK ? "by-unknown-id-response" :
+                                  (k == RSP && !m.up) ? "by-delivery-while-cleaned-up" : (k == RSP && m.sessions > 1) ? "by-response-to-a-request-of-the-previous-session" :
+                                  (k == BRSP || k == BREQ) ? "by-traffic-in-the-other-direction" : "by-op"); break; }
         for (auto &x : exp) if (x.req == e.req && !(x == e)) { viol = "completion-callback-with-wrong-outcome got(err=" + std::to_string(e.errcode) + ",val=" + std::to_string(e.val) + ") want(err=" + std::to_string(x.errcode) + ",val=" + std::to_string(x.val) + ")"; }
       }
       if (!viol.empty()) break;
       for (auto &x : exp) { bool seen = false; for (auto &e : w.events) if (e.req == x.req) seen = true;
-        if (!seen) { viol = x.errcode == ErrorCode::kRequestTimeout ? (m.reinit_done && x.req < MAXREQ ? "completion-callback-missing-at-timeout-deadline-after-reinitialize" : "completion-callback-missing-at-timeout-deadline")
-                          : h[n].k == REQ ? "completion-callback-missing-on-response-arriving-inside-request" : "completion-callback-missing-on-matching-response"; break; } }
+        if (!seen) { viol = x.errcode == ErrorCode::kRequestTimeout ? (later_session && x.req < MAXREQ ? "completion-callback-missing-at-timeout-deadline-after-reinitialize" :
+                                                                      (x.req < MAXREQ && !m.r[x.req].delivered) ? "completion-callback-missing-at-timeout-deadline-for-a-request-that-could-not-be-sent" : "completion-callback-missing-at-timeout-deadline")
+                          : k == REQ ? "completion-callback-missing-on-response-arriving-inside-request" : "completion-callback-missing-on-matching-response"; break; } }
       if (!viol.empty()) break;
       if (w.issued != (int)m.r.size()) { viol = "harness-model-and-world-disagree-on-issued-requests"; break; }
       // (the implementation's pending map is part of the canonical state but is not judged: only callbacks are observable)
     }
-    return w.canon() + " M:" + m.canon();
+    std::string c = w.canon() + " M:" + m.canon();
+    if (vf_any_missing()) { c += " H:"; for (size_t n = h.size() >= 3 ? h.size() - 3 : 0; n < h.size(); n++) c += std::to_string(h[n].k) + "." + std::to_string(h[n].a) + "." + std::to_string(h[n].b) + ","; }   // a member the key wanted is gone: tell states apart by the recent past
+    return c;
   };
   ex.explore(depth);
   printf("@STAT virtual_clock_reads=%ld would_block_polls=%ld\n", g_clock_reads, g_would_block);
